@@ -597,6 +597,97 @@ def q1_no_self_comparison(F, r):
         r.fail("comparison floor", f"only {n} comparison sites scanned in constraint code")
 
 
+def o3_can_fit_law(F, r):
+    """can_fit(capacity, load) holds iff load <= capacity in every dimension (E-C over <, =, >)"""
+    from .. import ordeval as oe
+    ms = [m for m in F.trait_impl_methods("vrp_core::models::common::load::Load::can_fit") if m.startswith("<vrp_core")]
+    if len(ms) < 2:
+        raise AnchorError(f"only {len(ms)} Load::can_fit impls")
+    for m in ms:
+        name = util.short_fn(m)
+        cls = list(F.children.get(m, []))
+        if cls:
+            if len(cls) != 1:
+                raise AnchorError(f"{name}: {len(cls)} closures")
+            quant = [t["callee"].split("::")[-1] for _, t in mir.calls(F.fns[m]) if t["callee"].split("::")[-1] in ("all", "any", "fold", "try_fold", "find", "position")]
+            if quant != ["all"]:
+                r.fail(f"{name}: quantifier", f"dimensions are combined with {quant or 'no quantifier'} instead of `all`: a load exceeding one dimension fits", F.loc(m))
+            else:
+                r.ok(f"{name}: quantifier", "all dimensions must fit")
+            zips = [t for _, t in mir.calls(F.fns[m]) if t["callee"].endswith("Iterator::zip")]
+            if not zips:
+                r.fail(f"{name}: pairing", "capacity and load dimensions are no longer paired with zip", F.loc(m))
+            tgt = cls[0]
+            it = oe.Interp(F, tgt, {1: oe.ref(("closure", tgt, [])), 2: ("agg", "tuple", {"0": oe.ref(oe.sym("a")), "1": oe.ref(oe.sym("b"))})}, fresh=True)
+        else:
+            tgt = m
+            it = oe.Interp(F, tgt, {1: oe.ref(oe.sym("a")), 2: oe.ref(oe.sym("b"))}, fresh=True)
+        n = 0
+        try:
+            paths = it.explore()
+        except oe.Undecided as e:
+            r.fail(f"{name}: law", f"not evaluable over the finite orderings: {e}", F.loc(tgt))
+            continue
+        for p in paths:
+            rel = [x for x in p.assumptions if len(x) == 3 and isinstance(x[2], str) and x[2] in "LEG" and x[0] != "switch"]
+            if not rel:
+                continue
+            o = rel[0][2] if rel[0][0].startswith("a") else oe.rev(rel[0][2])
+            n += 1
+            want = o in "GE"
+            inst = f"{name} [capacity {'<=>'['LEG'.index(o)]} load]"
+            if p.ret == ("bool", want):
+                r.ok(inst, "fits" if want else "does not fit")
+            else:
+                r.fail(inst, f"answers {p.ret} — a load {'equal to' if o == 'E' else ('above' if o == 'L' else 'below')} the capacity must {'fit' if want else 'not fit'}", F.loc(tgt))
+        if n < 3:
+            r.fail(f"{name}: coverage", f"only {n} orderings explored", F.loc(tgt))
+
+
+CAP_NAMES = ("capacity", "available", "resource_available", "resources", "resource_capacity")
+
+
+def _roles(F, fn, op):
+    """names and crossed calls an operand derives from (locals, parameters, closure captures)"""
+    lv, calls = mir.deep_leaves(fn, op)
+    names = set()
+    for k, v, p in lv:
+        if k in ("arg", "local"):
+            nm = fn["names"].get(str(v))
+            if nm:
+                names.add(nm)
+            if k == "arg" and v == 1 and fn["kind"] == "Closure" and p and str(p[0]).isdigit():
+                ups = fn.get("upvars", [])
+                if int(p[0]) < len(ups):
+                    names.add(ups[int(p[0])][0])
+    return names, {c.split("::")[-1] for c in calls}
+
+
+def o4_can_fit_roles(F, r):
+    """the receiver of can_fit is the capacity / available resource, the argument the load — never the other way round"""
+    n = 0
+    for fid, fn in sorted(F.fns.items()):
+        if "::promoted[" in fid or fid.startswith("<vrp_core::models::common::load"):
+            continue
+        for bi, t in mir.calls(fn):
+            if not t["callee"].endswith("::can_fit") or len(t["args"]) != 2:
+                continue
+            n += 1
+            rn, rc = _roles(F, fn, t["args"][0])
+            an, ac = _roles(F, fn, t["args"][1])
+            r_cap = bool(rn & set(CAP_NAMES)) or "get_vehicle_capacity" in rc
+            a_cap = bool(an & set(CAP_NAMES)) or "get_vehicle_capacity" in ac
+            inst = f"{util.short_fn(F.root_of(fid))}: can_fit@{n}"
+            if r_cap and not a_cap:
+                r.ok(inst, "capacity.can_fit(load)")
+            elif a_cap and not r_cap:
+                r.fail(inst, "the load is asked whether it can hold the capacity (receiver and argument swapped): the verdict is inverted — overloads pass, admissible loads are rejected", F.loc(fid, t["ln"]))
+            else:
+                r.ok(inst, f"roles not determinable from names/provenance (receiver {sorted(rn)[:2]}, argument {sorted(an)[:2]}): not decided for this site")
+    if n < 8:
+        raise AnchorError(f"only {n} can_fit call sites")
+
+
 def o1_componentwise_loads(F, r):
     from .c12 import partial_order_sites
     sites = partial_order_sites(F, ("vrp_core::construction::features::capacity", "vrp_core::construction::features::reloads", "vrp_core::construction::features::recharge",
@@ -953,6 +1044,10 @@ def run(ctx):
     ctx.run("C01-G3", "InsertionSuccess is built only from an evaluated feasible position (make_success callers gated; copies only)", g3_success_construction, floor=12)
     ctx.run("C01-G4", "only confirmed modules insert activities into tours / obtain mutable activity access", g4_who_may_insert, floor=12)
     ctx.run("C01-Q1", "no comparison in constraint code relates a value to itself (a constant guard)", q1_no_self_comparison, floor=1)
+    from .common import operator_agreement
+    ctx.run("C01-O2", "load / cost / statistic operators: every impl Add/Sub/Mul computes with its own operator family", operator_agreement, floor=8)
+    ctx.run("C01-O4", "can_fit is asked of the capacity / available resource about the load (roles not swapped)", o4_can_fit_roles, floor=8)
+    ctx.run("C01-O3", "can_fit(capacity, load) iff load <= capacity in every dimension (finite-ordering evaluation)", o3_can_fit_law, floor=7)
     ctx.run("C01-O1", "load verdicts in capacity/reload constraints are component-wise (can_fit), not the partial order", o1_componentwise_loads, floor=2)
     ctx.run("C01-K3", "pragmatic reader: demand, capacity and capacity features pick the load type by the same predicate", k3_load_types, floor=10)
     ctx.run("C01-R1", "relaxed / amended goals never escape: original problem re-assigned on every path, or every individual recovered through repair", r1_relaxed_goal, floor=5)
